@@ -446,4 +446,6 @@ func TestGenC11(t *testing.T) {
 			q.sample(fmt.Sprintf("scenario %d: %v", sc, firstN(lines, 16)))
 		}
 	}
+	// real-time session scenarios (relay incidents; see c11_rt_test.go)
+	rtSessionCases(q, r)
 }
